@@ -71,7 +71,11 @@ fn fill(c: &mut CmdSpec, st: &mut Rng, ct: &mut Rng, hostile: bool, names_too: b
     slot!(&mut c.after_help, true);
     slot!(&mut c.after_long_help, true);
     slot!(&mut c.before_help, true);
-    slot!(&mut c.author, false);
+    // (every slot may span several lines; the single-line ones do so less often)
+    if c.author.is_some() {
+        let ml = st.chance(1, 3);
+        c.author = Some(text(st, ct, hostile, ml));
+    }
     // (versions may span several lines too)
     if c.version.is_some() {
         let ml = st.chance(1, 4);
@@ -105,7 +109,8 @@ fn fill(c: &mut CmdSpec, st: &mut Rng, ct: &mut Rng, hostile: bool, names_too: b
         if let Some(Vp::Possible(pvs)) = a.vp.as_mut() {
             for p in pvs.iter_mut() {
                 if p.help.is_some() {
-                    p.help = Some(text(st, ct, hostile, false));
+                    let ml = st.chance(1, 2);
+                    p.help = Some(text(st, ct, hostile, ml));
                 }
             }
         }
